@@ -32,7 +32,9 @@ from .ethernetip import SendUnitDataRequestPacket, SendUnitDataResponsePacket
 from .util import parse_read_reply, request_path, tag_request_path
 
 from ..cip import ClassCode, Services, DataTypes, UINT, UDINT, ULINT
-from ..const import STRUCTURE_READ_REPLY
+from ..const import STRUCTURE_READ_REPLY, SUCCESS
+
+EMBEDDED_SERVICE_ERROR = 0x1E  # Multiple Service Packet: at least one of the embedded services failed
 from ..exceptions import RequestError
 
 
@@ -404,6 +406,9 @@ class MultiServiceResponsePacket(SendUnitDataResponsePacket):
 
     def _parse_reply(self):
         super()._parse_reply()
+        if self.service_status not in (SUCCESS, EMBEDDED_SERVICE_ERROR):
+            # the packet itself was refused: whatever follows the status is not a list of service replies
+            return
         try:
             num_replies = UINT.decode(self.data)
             offset_data = self.data[2 : 2 + 2 * num_replies]
